@@ -1073,10 +1073,27 @@ def make_world():
         exec(compile(src, path + ".py", "exec"), g)
         return m
 
+    _stub_classes = {}
+
+    def _stub_class(qual):
+        if qual not in _stub_classes:
+            def __init__(self, *a, **k):
+                pass
+
+            def __getattr__(self, n):
+                if n.startswith("__"):
+                    raise AttributeError(n)
+                return lambda *a, **k: None
+
+            _stub_classes[qual] = type(qual.rpartition(".")[2], (object,), {"__init__": __init__, "__getattr__": __getattr__})
+        return _stub_classes[qual]
+
     class _Anything(types.ModuleType):
         def __getattr__(self, n):
             if n.startswith("__"):
                 raise AttributeError(n)
+            if n[0].isupper():  # LightningModule, Dataset, DataLoader, ... usable as base classes
+                return _stub_class(self.__name__ + "." + n)
             return _Anything(self.__name__ + "." + n)
 
         def __call__(self, *a, **k):
@@ -1114,7 +1131,7 @@ def make_world():
                 "rl4co.data.utils",
             ):
                 return _Anything(name)
-            if name.startswith("torch.distributions"):
+            if name.startswith("torch.distributions") or name.startswith("torch.utils") or name.startswith("torch.optim"):
                 return _Anything(name)
             m = load(name)
             if fromlist:
@@ -1134,6 +1151,8 @@ def make_world():
                                 setattr(m, f, _deferred)
                 return m
             return load(top) if "." in name else m
+        if top in ("lightning", "hydra", "omegaconf", "wandb", "matplotlib", "robust_downloader", "tqdm"):
+            return _Anything(name)
         return real_import(name, globals, locals, fromlist, level)
 
     return load
